@@ -204,9 +204,24 @@ def gen_pcm_case(rng):
     else:
         alpha = {'fixed': [[a, (rng.choice([0.0, 1.0, rng.uniform(0, 1)]) if lo else rng.choice([0.0, rng.uniform(-1, 1)]))]
                            for a in rng.sample(ALL, rng.randint(0, 6))]}
+    big = None
+    if rng.random() < 0.1:
+        # a very large holding that the rebalance trims to a residual of a few shares
+        a_big, a_rest = rng.sample(ALL, 2)
+        prices[a_big] = rng.choice([1.0, 2.0, 2.5, 0.5])
+        qb = rng.choice([10 ** 5, 250000, 10 ** 6, 2410000, 4760000]) * (1 if lo or rng.random() < 0.5 else -1)
+        fills = [[a_big, qb]] + [[a, q] for a, q in fills if a != a_big][:1]
+        r = rng.choice([1, 2, 4, 7])
+        param_ = rng.choice([0.0, 0.05]) if lo else 1.0
+        e_eff = 1e6 * ((1 - param_) if lo else param_)
+        w_small = (r + 0.5) * prices[a_big] / e_eff * (1 if qb > 0 else -1)
+        alpha = {'fixed': [[a_big, w_small], [a_rest, 1.0 - abs(w_small)]]}
+        uni = {'static': [a_big, a_rest]}
+        big = param_
+        nan_asset = None
     if nan_asset and all(a != nan_asset for a, q in fills):
         prices[nan_asset] = None
-    return dict(kind='pcm', long_only=lo, param=(rng.choice([0.0, 0.05, 0.3]) if lo else rng.choice([0.5, 1.0, 2.0])),
+    return dict(kind='pcm', long_only=lo, param=(big if big is not None else (rng.choice([0.0, 0.05, 0.3]) if lo else rng.choice([0.5, 1.0, 2.0]))),
                 fee=gen_fee(rng), prices=prices, fills=fills, universe=uni, alpha=alpha, t=MON_OPEN + rng.choice([0, 60, 3600]),
                 entry_tz=(rng.choice(ZONES) if rng.random() < 0.3 else None), nat=rng.random() < 0.4)
 
